@@ -331,7 +331,18 @@ func c11Prop(t *testing.T, r *hx.Run) func(c c11Case) hx.Verdict {
 				// (or three) at one instant happen legitimately: an attempt
 				// launched by the connect-retry timer that is refused leads
 				// to Idle, whose idle-hold timer may have expired long ago.
-				if i >= 3 && ds[i].At-ds[i-3].At < time.Millisecond {
+				// The clock does not move while the script brings up and ends an inbound
+				// session, and every such end is followed by a dial of its own: a burst
+				// with the end of a connection in its midst is not a loop either.
+				sessionEnd := false
+				if i >= 3 {
+					for _, cn := range w.Net.Conns() {
+						if st := cn.Snapshot(); st.LocalClosed && st.CloseSeq > ds[i-3].Seq && st.CloseSeq < ds[i].Seq {
+							sessionEnd = true
+						}
+					}
+				}
+				if i >= 3 && ds[i].At-ds[i-3].At < time.Millisecond && !sessionEnd {
 					fail("busy-redial", "dial attempts %d..%d all start within 1 ms (at %v .. %v)", i-3, i, ds[i-3].At, ds[i].At)
 					return
 				}
